@@ -309,6 +309,7 @@ func runC05(p *core.Program, r *core.Report) {
 
 	c05Frame(p, r, "C05.frame", false)
 	c05TagHash(p, r, "C05.taghash")
+	c05HashGuard(p, r, "C05.taghash")
 	// the variable-length encodings the bodies are made of (same rules as C01, reported under C05:
 	// a changed length class changes the bytes of every pack that carries such a field)
 	c01Decimal(p, r, &bits.Interp{P: p}, "C05.encodings")
@@ -764,4 +765,73 @@ func min(a, b int) int {
 		return a
 	}
 	return b
+}
+
+// c05HashGuard: in the tag-carrying packs the hash in front of the tags is derived lazily in Write,
+// and only for a non-empty tag map: an empty map goes out with hash 0 (that is what the reference
+// layout carries). Every path of Write that (re)computes the hash has established Tags.Size() > 0.
+func c05HashGuard(p *core.Program, r *core.Report, rule string) {
+	for _, tn := range []string{"TagCountPack", "LogSinkPack"} {
+		t := namedIn(p, "lang/pack", tn)
+		if t == nil {
+			continue
+		}
+		fi := p.Method("lang/pack", tn, "Write")
+		if fi == nil || fi.Decl.Body == nil {
+			continue
+		}
+		info := fi.Pkg.TypesInfo
+		rn := recvName(fi)
+		norm := func(e ast.Expr) string { return strings.ReplaceAll(stripSpaces(types.ExprString(e)), rn+".", "") }
+		in := newInliner(p, fi, func(fn *types.Func) bool { return fn.Name() == "ResetTagHash" })
+		ps, over := paths.Enumerate(fi.Decl.Body, paths.Config{Info: info, Inline: in.Body, Expand: in.Expand,
+			Cond: func(c ast.Expr, v bool) *paths.Event {
+				return &paths.Event{Kind: "COND", Arg: condKey(info, norm, c, v), Pos: c.Pos()}
+			},
+			Classify: func(m ast.Node) []paths.Event {
+				var out []paths.Event
+				if as, ok := m.(*ast.AssignStmt); ok && len(as.Lhs) == len(as.Rhs) {
+					for i, l := range as.Lhs {
+						if strings.EqualFold(norm(l), "taghash") {
+							if tv, ok := info.Types[as.Rhs[i]]; !ok || tv.Value == nil {
+								out = append(out, paths.Event{Kind: "HASHSET", Pos: as.Pos()})
+							}
+						}
+					}
+				}
+				ast.Inspect(m, func(k ast.Node) bool {
+					if call, ok := k.(*ast.CallExpr); ok {
+						if sel, ok := call.Fun.(*ast.SelectorExpr); ok && sel.Sel.Name == "ResetTagHash" {
+							out = append(out, paths.Event{Kind: "HASHSET", Pos: call.Pos()})
+						}
+					}
+					return true
+				})
+				return out
+			}})
+		c := "lang/pack.(*" + tn + ").Write hash guard"
+		pos := p.Pos(fi.Decl.Pos())
+		if over {
+			r.Undec(rule, c, pos, "too many paths")
+			continue
+		}
+		n := 0
+		bad := ""
+		for _, pa := range ps {
+			i := pa.Index("HASHSET")
+			if i < 0 {
+				continue
+			}
+			n++
+			pre := pa[:i]
+			if !(hasCmp(pre, "Tags.Size()", ">", "0", true) || hasCmp(pre, "Tags.Size()", "==", "0", false) || hasCmp(pre, "Tags.Size()", "!=", "0", true) || pre.HasArg("COND", "Tags.IsEmpty()=false")) {
+				bad = pa.String()
+			}
+		}
+		if n == 0 {
+			r.Info(rule, c, pos, "Write does not derive the hash")
+			continue
+		}
+		r.Check(bad == "", rule, c, pos, "the hash is derived only for a non-empty tag map", "the hash is derived on a path that has not established a non-empty tag map: a pack without tags goes out with the hash of the empty map instead of 0 (the bytes differ from the reference encoding): "+bad)
+	}
 }
